@@ -44,6 +44,25 @@ func verifForceRealloc(s *valueStack, idx int) bool {
 	return true
 }
 
+// verifReallocStacks moves the try and call stacks to fresh backing arrays (and poisons the old ones) when the
+// buggify knob is on, so that a pointer into them held across code that may grow them is caught.
+func verifReallocStacks(vm *vm) {
+	f := VerifForceStackRealloc
+	if f == nil || !f() {
+		return
+	}
+	oldTry := vm.tryStack
+	vm.tryStack = append(make([]tryFrame, 0, len(oldTry)+1), oldTry...)
+	for i := range oldTry {
+		oldTry[i] = tryFrame{}
+	}
+	oldCall := vm.callStack
+	vm.callStack = append(make([]context, 0, len(oldCall)+1), oldCall...)
+	for i := range oldCall {
+		oldCall[i] = context{}
+	}
+}
+
 // VerifState is a snapshot of the VM's internal bookkeeping.
 type VerifState struct {
 	CallStack, TryStack, IterStack, RefStack int
